@@ -83,6 +83,22 @@ def run(ctx):
                    what="%s tests `%s` by truthiness although -1 means `none`" % (q, member_text(bad[0]) if bad else ""))
     ctx.require_count("R19.1", 3)
 
+    # ---- R19.12: the queue operations as a whole
+    ctx.rule("R19.12", "QUEUE-EVALUATED: clearSlot (every slot) and handleMidi with an unbound plain controller, interpreted over all 16 states of the learn queue of three slots, "
+                       "leave the waiting slots with the positions 1..n in the order in which they asked and learn_queue_len = n; the controller is bound to the slot that was at the head and to no other")
+    from ..rules import learnqueue as LQ
+    queue_decided = False
+    try:
+        bad_c, n_c = LQ.check_clear(u)
+        bad_l, n_l = LQ.check_learn(u)
+        queue_decided = True
+        ctx.ob("R19.12", "clearSlot over all queue states", not bad_c, site=A.where(u.function("AutomationMgr::clearSlot")), detail={"evaluations": n_c, "mismatches": bad_c[:3]},
+               what="clearSlot does not keep the learn queue in order: %s" % bad_c[:2])
+        ctx.ob("R19.12", "handleMidi (unbound controller) over all queue states", not bad_l, site=A.where(u.function("AutomationMgr::handleMidi")), detail={"evaluations": n_l, "mismatches": bad_l[:3]},
+               what="handleMidi with an unbound controller does not serve the head of the learn queue and close the gap: %s" % bad_l[:2])
+    except FD.Unknown as e:
+        ctx.note("R19.12: the queue operations are not evaluable as a whole (%s); the guards of the decrements are examined one by one (R19.5)" % e)
+
     # ---- R19.5
     qlen_field = None
     n5 = 0
@@ -123,7 +139,14 @@ def run(ctx):
                     if site_call is not None:
                         for prm, arg in zip(u.params(fn), A.kids(site_call)[1:]):
                             binds[prm["id"]] = arg
-                    w = _queue_witness(u, sentinel, member_text, x, tgt, is_sent, conds, cconds, binds, q)
+                    try:
+                        w = _queue_witness(u, sentinel, member_text, x, tgt, is_sent, conds, cconds, binds, q)
+                    except AnalysisBroken as e5:
+                        if queue_decided and (q.split("::")[-1] in ("clearSlot", "handleMidi") or (site_q or "").split("::")[-1] in ("clearSlot", "handleMidi")):
+                            ctx.note("R19.5: %s - decided by the evaluation of the queue operations (R19.12)" % e5)
+                            w = None
+                        else:
+                            raise
                     if w is not None:
                         witness = dict(w, **({"called_from": site_q} if site_q else {}))
                         break
